@@ -86,7 +86,12 @@ ScreenInputs == UNION {{[x \in 1..n |-> [id |-> x, s |-> q[x][1], ts |-> q[x][2]
                        n \in 1..NRows}
 
 SmInit == /\ op \in SmOps /\ out = << >> /\ phase = 0
-          /\ IF op = "inputs" THEN param = 0 /\ in \in ScreenInputs ELSE
+          /\ IF op = "inputs"
+             THEN /\ param = 0
+                  /\ \E n \in 1..NRows : \E q \in [1..n -> RowChoices], po \in [1..2 -> BOOLEAN] :
+                        /\ \A a \in 1..n - 1 : RCode(q[a]) <= RCode(q[a + 1])
+                        /\ in = [x \in 1..n |-> [id |-> x, s |-> q[x][1], ts |-> q[x][2], pl |-> q[x][3], obs |-> po[q[x][3]]]]
+             ELSE
              IF op = "combofilter"
              THEN /\ param = 0
                   /\ \E n \in 1..NRows : \E q \in [1..n -> TRows] :
